@@ -272,6 +272,14 @@ def is_lit(e, v):
 def is_extent(prog, f, e, cont, locs):
     """e denotes the number of elements of the container: container.size(), or std::distance(<begin()>, <end()>) through locals"""
     e = peel(e)
+    # a named extent: `const auto size = std::distance(begin, end);` (initialised once, never assigned again)
+    hops = 0
+    while isinstance(e, dict) and e.get("k") == "ref" and e.get("rk") == "local" and hops < 3:
+        v = locs.get(e.get("vid"))
+        if v is None or v.get("init") is None or any(x.get("k") == "assign" and strip_casts(x["lhs"]).get("vid") == e.get("vid") for x in walk(f["body"])):
+            break
+        e = peel(v["init"])
+        hops += 1
     if not isinstance(e, dict) or e.get("k") != "call":
         return False
 
@@ -318,10 +326,15 @@ def guarded(prog, f, flow, pr, n, subjects):
     touches_this = any(x.get("k") == "this" or (x.get("k") == "member" and (x.get("base") is None or strip_casts(x.get("base")).get("k") == "this"))
                        for x in subj)
 
-    def mentions(cond):
+    def mentions(cond, depth=0):
         for x in walk(cond):
             for s in subj:
                 if same_var(x, s):
+                    return True
+            # a named quantity in the test (`const auto size = std::distance(first, c.end())`) stands for what it was computed from
+            if depth < 2 and x.get("k") == "ref" and x.get("rk") == "local":
+                v = locals_.get(x.get("vid"))
+                if v is not None and v.get("init") is not None and mentions(v["init"], depth + 1):
                     return True
             if touches_this and x.get("k") == "call" and x.get("obj") is not None and strip_casts(x["obj"]).get("k") == "this":
                 return True
@@ -358,8 +371,49 @@ def guarded(prog, f, flow, pr, n, subjects):
                 for s in sibs[:idx]:
                     if s.get("k") == "if" and not s.get("constexpr") and throws(s.get("then")) and mentions(s["cond"]):
                         return True, expr_str(prog, f, s["cond"])
+                    # the same guard extracted into a helper that is called as a statement: `throw_if_empty(c);` / `throw_if_empty();`
+                    for cond in guard_helper_conditions(prog, f, s):
+                        if mentions(cond) or (touches_this and guard_helper_is_member(prog, f, s)):
+                            return True, expr_str(prog, f, cond)
         cur = a
     return False, None
+
+
+def _stmt_call(s):
+    c = s
+    if isinstance(c, dict) and c.get("k") in ("expr", "exprstmt") and isinstance(c.get("e"), dict):
+        c = c["e"]
+    c = strip_casts(c) if isinstance(c, dict) else {}
+    return c if c.get("k") == "call" and c.get("fn") is not None else None
+
+
+def guard_helper_conditions(prog, f, s):
+    """conditions (with the helper's parameters replaced by the call's arguments) under which the statement-call `s` throws:
+    the callee's body is nothing but `if (C) throw ...;` statements"""
+    from ..flow import _subst_params
+    c = _stmt_call(s)
+    if c is None:
+        return []
+    callee = prog.fn_by_id(f, c["fn"])
+    if callee is None or not callee.get("body") or callee is f:
+        return []
+    stmts = callee["body"].get("s", []) if callee["body"].get("k") == "block" else [callee["body"]]
+    out = []
+    for st in stmts:
+        if not (st.get("k") == "if" and not st.get("constexpr") and throws(st.get("then")) and st.get("else") is None):
+            return []
+        out.append(_subst_params(st["cond"], c.get("args") or []))
+    return out
+
+
+def guard_helper_is_member(prog, f, s):
+    """the guard helper is a member function called on this object (its condition is about this object's own members)"""
+    c = _stmt_call(s)
+    if c is None:
+        return False
+    o = strip_casts(c.get("obj") or {})
+    callee = prog.fn_by_id(f, c["fn"])
+    return callee is not None and callee.get("cls") == f.get("cls") and (c.get("obj") is None or o.get("k") == "this")
 
 
 def throws(n):
